@@ -8,6 +8,7 @@ ID = "C03"
 LEVEL = "proof"
 COQ_HEADER = "From MiniMcmc Require Import Model.NUTSEval Model.FindEps."
 LMARK = -1000000011
+GMARK = -1000000013
 RULE = ("NUTSChain::step under the transition-trace hook (momentum, joint0, log u, eps, per doubling: direction uniform, every "
         "leaf with position/momentum/joint, every merge uniform, acceptance uniform) on Gaussians of dimension 1..8 with random "
         "precision matrices, DiffableGaussian2D, Rosenbrock2D, a funnel and steep quartics driven to divergence, with step sizes "
@@ -79,7 +80,35 @@ def generate(rng, tier):
 
 def run_impl(cases):
     # NUTS has no depth cap: every case runs in its own process under a watchdog and a memory limit
-    return C.run_isolated("C03", cases, watchdog_s=90, mem_gb=6)
+    outs = C.run_isolated("C03", cases, watchdog_s=90, mem_gb=6)
+    # second pass: the values an identically seeded generator yields for the draw kinds the model's grammar predicts
+    idx = [i for i, (c, o) in enumerate(zip(cases, outs)) if draw_plan(c, o) is not None]
+    if idx:
+        rep = C.run_harness("C03", [{"op": "replay_draws", "f": cases[i]["f"], "seed": cases[i]["seed"], "kinds": draw_plan(cases[i], outs[i])[0]}
+                                    for i in idx])
+        for i, r in zip(idx, rep):
+            outs[i]["replay"] = r["values"]
+    return outs
+
+
+def draw_plan(case, out):
+    """(kinds, emitted values) of every variate of the case's runs, in generation order; None when not applicable.
+    Kinds per Model.NUTSEval.nuts_run_kinds: 0 normal, 1 Exp(1), 2 uniform in T, 3 uniform f64; the init_chain momenta
+    are not emitted by the hook (None placeholders)."""
+    if case.get("op") != "transitions" or "runs" not in out or case.get("events_filter") or "seed" not in case:
+        return None
+    kinds, vals = [], []
+    for run in out["runs"]:
+        d = len(case["init"])
+        kinds += [0] * d
+        vals += [None] * d
+        for tr in N.split_transitions(run["events"]):
+            kinds += [0] * d + [1]
+            vals += list(tr["start"]["momentum"]) + [tr["start"]["exp1"]]
+            for db in tr["doublings"]:
+                kinds += [2] + [3] * len(db["merges"]) + [2]
+                vals += [db["head"]["u1"]] + [mg["u"] for mg in db["merges"]] + [db["end"]["u2"]]
+    return kinds, vals
 
 
 def transitions(case, out):
@@ -102,6 +131,10 @@ def coq_term(case, out):
     if not trs:
         return None
     t = " ++ [-1000000007] ++ ".join("(%s)" % N.coq_term(t, case["f"]) for t in trs)
+    if draw_plan(case, out) is not None:
+        runs = "; ".join("[" + "; ".join(C.zlist([len(db["merges"]) for db in tr["doublings"]]).replace("]", "]%nat")
+                                           for tr in N.split_transitions(run["events"])) + "]" for run in out["runs"])
+        t += " ++ [%s] ++ concat (map (nuts_run_kinds %s) [%s])" % (C.z(GMARK), C.natlit(len(case["init"])), runs)
     lv = leaf_samples(case, out)
     if lv:
         tg = case["target"]
@@ -153,9 +186,24 @@ def compare(case, out, model):
     if model is None:
         return None
     trs = [t for t in transitions(case, out) if usable(t) and not N.ambiguous(t, case["f"])]
+    lm = None
     if LMARK in model:
         k = model.index(LMARK)
         model, lm = model[:k], model[k + 1:]
+    if GMARK in model:
+        k = model.index(GMARK)
+        model, gm = model[:k], model[k + 1:]
+        kinds, vals = draw_plan(case, out)
+        if gm != kinds:
+            return "draw grammar: the trace implies the kind sequence %s..., Model.NUTSEval.nuts_run_kinds gives %s..." % (kinds[:12], gm[:12])
+        rp = out.get("replay")
+        if rp is not None:
+            for j, (kd, v, r) in enumerate(zip(kinds, vals, rp)):
+                if v is not None and v != r:
+                    return ("variate %d of the chain (kind %d: 0 normal, 1 Exp(1), 2 uniform, 3 uniform f64) is %r in the "
+                            "implementation; an identically seeded generator drawing the model's kind sequence yields %r there"
+                            % (j, kd, N.bf(v), N.bf(r)))
+    if lm is not None:
         d = case["target"]["d"]
         tol = Fraction(1, 2 ** 11) if case["f"] == "f32" else Fraction(1, 2 ** 13)
         pos = 0
@@ -171,6 +219,7 @@ def compare(case, out, model):
                         e, [N.bf(b) for b in prev["position"]], "coordinate %d" % j if j < 2 * d else "joint", float(a), float(b))
         if pos != len(lm):
             return "internal: leaf evaluation misaligned"
+
     parts = split_model(model)
     if len(parts) != len(trs):
         return "model output malformed"
@@ -227,6 +276,13 @@ def oracle(case, out):
                     N.bf(case["force_eps"]) if "force_eps" in case else "adapted", out))
     if "panic" in out:
         return "NUTS panicked: " + out["panic"]
+    if "replay" in out:
+        kinds, vals = draw_plan(case, out)
+        for j, (kd, v, r) in enumerate(zip(kinds, vals, out["replay"])):
+            if v is not None and v != r:
+                return ("seed %s: variate %d used by the chain (kind %d: 0 normal, 1 Exp(1), 2 uniform, 3 uniform f64) is %r, but the chain's "
+                        "own seeded generator yields %r at that place of the sequence [d normals at run start; per transition d normals, "
+                        "Exp(1), per doubling uniform, one f64 uniform per merge, uniform]" % (case["seed"], j, kd, N.bf(v), N.bf(r)))
     for t in transitions(case, out):
         r = N.oracle(t, case["f"])
         if r:
@@ -273,4 +329,14 @@ def extra(cases, outs, model):
                 amb += 1
             for k in classes(t):
                 cl[k] = cl.get(k, 0) + 1
-    return {"transitions": n_tr, "ambiguous": amb, "too_large_for_model": big, "classes": cl, "max_doublings": depth}
+    rp_cases = rp_vals = rp_bad = 0
+    for c, o in zip(cases, outs):
+        if isinstance(o, dict) and "replay" in o:
+            kinds, vals = draw_plan(c, o)
+            rp_cases += 1
+            rp_vals += sum(1 for v in vals if v is not None)
+            rp_bad += sum(1 for v, r in zip(vals, o["replay"]) if v is not None and v != r)
+    return {"transitions": n_tr, "ambiguous": amb, "too_large_for_model": big, "classes": cl, "max_doublings": depth,
+            "draw_replay": {"cases": rp_cases, "variates_compared": rp_vals, "differing": rp_bad,
+                            "rule": "every momentum coordinate, slice variable, direction / merge / acceptance uniform of the trace equals what an "
+                                    "identically seeded SmallRng yields when it draws the kind sequence of Model.NUTSEval.nuts_run_kinds"}}
